@@ -16,8 +16,8 @@
 #include <string.h>
 #include <stdio.h>
 
-enum { KG, KU, KS, KW, KA, NKIND };
-static const char *kname[] = { "guarded", "unique", "shared", "weak", "array" };
+enum { KG, KU, KS, KW, KA, KC /* converse: proper use only, nothing may abort */, NKIND };
+static const char *kname[] = { "guarded", "unique", "shared", "weak", "array", "proper-use" };
 enum { W_ASSIGN, W_MEMCPY, W_RELOCATE, NWAY };
 static const char *wname[] = { "struct-assignment", "memcpy", "relocated" };
 
@@ -47,6 +47,8 @@ static const char *aprobe[] = { "alloc", "set", "release", "data", "data_const",
                                 "slice.s-is-copy-of-a", "unslice.a-is-copy-of-s",
                                 "alloc.unrepresentable-size", "alloc.zero-elements", "set.null-buffer" };
 
+enum { PR_ZERO, PR_GARBAGE, PR_ONES, PR_LIVE_OBJECT_BYTES, NPRIOR };
+static const char *prior[] = { "zeros", "garbage", "all-ones", "bytes-of-a-live-object" };
 struct cell { int kind, state, way, probe; };
 static struct cell cells[4096];
 static int ncell;
@@ -58,6 +60,8 @@ static void build_cells(void)
 #define ADD(K, NSTATE, NPROBE) for (s = 0; s < NSTATE; s++) for (w = 0; w < NWAY; w++) for (p = 0; p < NPROBE; p++) { \
         cells[ncell].kind = K; cells[ncell].state = s; cells[ncell].way = w; cells[ncell].probe = p; ncell++; }
     ADD(KG, 2, NG) ADD(KU, 2, NU_) ADD(KS, 3, NS_) ADD(KW, 3, NW_) ADD(KA, 4, NA_)
+    /* converse cells: state = what the storage held before (NPRIOR), way = variant, probe = object kind */
+    ADD(KC, NPRIOR, 5)
 #undef ADD
 }
 
@@ -94,6 +98,159 @@ static void must_abort(int aborted, const struct cell *c, const char *st, const 
     if (aborted) { VRT_COUNT("cells.aborted-as-required"); return; }
     snprintf(key, sizeof(key), "guard.stray-copy-not-caught.%s.%s.%s", kname[c->kind], pr, st);
     vrt_fail(key, "%s %s (%s) through a %s copy returned normally instead of aborting", kname[c->kind], pr, st, wname[c->way]);
+}
+
+/* ---------------- converse: proper use never aborts ---------------- */
+/* Storage that is about to become an object holds: zeros, 0x5a garbage, all-ones, or the bytes of a live,
+ * owning object of the same kind that lives elsewhere (re-used storage; the documented way to make such
+ * storage an object is the init function, and for the guarded pointer also set and copy, which "overwrite /
+ * (re)initialise the destination regardless of its current state").  From then on the object is moved with
+ * the provided functions only; every call must return normally and give the right answer. */
+static const struct cell *conv_cell;
+static void conv_fail(const char *step)
+{
+    char key[160];
+    snprintf(key, sizeof(key), "guard.proper-use-aborted.%s.%s.storage-held-%s", kname[conv_cell->probe], step, prior[conv_cell->state]);
+    vrt_fail(key, "%s: %s aborted although every object was initialised and moved with the library's own functions "
+             "(storage previously held %s, variant %d)", kname[conv_cell->probe], step, prior[conv_cell->state], conv_cell->way);
+}
+#define MUST_NOT(stmt, step) do { VRT_OP0("proper-use." step, ""); if (VRT_ABORTS(stmt)) conv_fail(step); VRT_COUNT("proper-use.calls-returned-normally"); } while (0)
+
+/* storage of n bytes in the given prior state; live = bytes of a live object of the same kind */
+static void *storage(size_t n, int pr, const void *live)
+{
+    unsigned char *p = vrt_alloc(n);
+    switch (pr) {
+    case PR_ZERO: memset(p, 0, n); break;
+    case PR_GARBAGE: memset(p, 0x5a, n); break;
+    case PR_ONES: memset(p, 0xff, n); break;
+    default: memcpy(p, live, n); break;
+    }
+    return p;
+}
+
+static void cell_converse(const struct cell *c)
+{
+    const int pr = c->state, v = c->way;
+    conv_cell = c;
+    vrt_state(prior[pr]);
+    switch (c->probe) {
+    case KG: {
+        struct cstl_guarded_ptr *live = vrt_alloc(sizeof(*live)), *d, *d2, *src = vrt_alloc(sizeof(*src));
+        void *blk = vrt_alloc(16), *blk2 = vrt_alloc(16), *volatile got = NULL;
+        cstl_guarded_ptr_set(live, blk2);
+        cstl_guarded_ptr_set(src, blk);
+        d = storage(sizeof(*d), pr, live); d2 = storage(sizeof(*d2), pr, live);
+        switch (v) {
+        case 0: MUST_NOT(cstl_guarded_ptr_init(d), "guarded.init"); MUST_NOT(cstl_guarded_ptr_set(d, blk), "guarded.set"); break;
+        case 1: MUST_NOT(cstl_guarded_ptr_set(d, blk), "guarded.set-on-raw-storage"); break;
+        default: MUST_NOT(cstl_guarded_ptr_copy(d, src), "guarded.copy-to-raw-storage"); break;
+        }
+        MUST_NOT(got = cstl_guarded_ptr_get(d), "guarded.get");
+        VRT_CHECK(got == blk, "guard.proper-use-wrong.guarded.get", "get after init/set/copy yields another pointer");
+        MUST_NOT(cstl_guarded_ptr_copy(d2, d), "guarded.copy-to-raw-storage");
+        MUST_NOT(got = (void *)cstl_guarded_ptr_get_const(d2), "guarded.get_const");
+        VRT_CHECK(got == blk, "guard.proper-use-wrong.guarded.copy", "the copy yields another pointer");
+        /* copy over an initialised, occupied destination */
+        MUST_NOT(cstl_guarded_ptr_copy(d2, live), "guarded.copy-to-occupied");
+        MUST_NOT(cstl_guarded_ptr_swap(d, d2), "guarded.swap");
+        MUST_NOT(got = cstl_guarded_ptr_get(d), "guarded.get");
+        VRT_CHECK(got == blk2 && cstl_guarded_ptr_get(d2) == blk, "guard.proper-use-wrong.guarded.swap", "swap did not exchange the pointers");
+        MUST_NOT(cstl_guarded_ptr_init(d), "guarded.init-occupied");
+        VRT_CHECK(cstl_guarded_ptr_get(d) == NULL && cstl_guarded_ptr_get(live) == blk2 && cstl_guarded_ptr_get(src) == blk,
+                  "guard.proper-use-wrong.guarded.originals", "the other objects changed");
+        vrt_free(blk); vrt_free(blk2); vrt_free(live); vrt_free(src); vrt_free(d); vrt_free(d2);
+        break;
+    }
+    case KU: {
+        cstl_unique_ptr_t *live = vrt_alloc(sizeof(*live)), *d, *d2;
+        void *volatile got = NULL; void *m1;
+        cstl_unique_ptr_init(live); cstl_unique_ptr_alloc(live, 24, clr_cb, NULL);
+        d = storage(sizeof(*d), pr, live); d2 = storage(sizeof(*d2), pr, live);
+        MUST_NOT(cstl_unique_ptr_init(d), "unique.init"); MUST_NOT(cstl_unique_ptr_init(d2), "unique.init");
+        MUST_NOT(got = cstl_unique_ptr_get(d), "unique.get");
+        VRT_CHECK(got == NULL, "guard.proper-use-wrong.unique.init", "a freshly initialised unique pointer is not empty");
+        if (v != 1) MUST_NOT(cstl_unique_ptr_alloc(d, 32, clr_cb, NULL), "unique.alloc");
+        m1 = cstl_unique_ptr_get(d);
+        MUST_NOT(cstl_unique_ptr_swap(d, d2), "unique.swap");
+        MUST_NOT(got = cstl_unique_ptr_get(d2), "unique.get");
+        VRT_CHECK(got == m1 && cstl_unique_ptr_get(d) == NULL, "guard.proper-use-wrong.unique.swap", "swap did not exchange");
+        if (v == 2) { cstl_xtor_func_t *clr = NULL; void *pv = NULL; MUST_NOT(got = cstl_unique_ptr_release(d2, &clr, &pv), "unique.release");
+                      VRT_CHECK(got == m1, "guard.proper-use-wrong.unique.release", "release yields another pointer"); if (got) vrt_lib_free_block(got); }
+        MUST_NOT(cstl_unique_ptr_reset(d2), "unique.reset"); MUST_NOT(cstl_unique_ptr_reset(d), "unique.reset");
+        VRT_CHECK(cstl_unique_ptr_get(live) != NULL, "guard.proper-use-wrong.unique.originals", "the other object changed");
+        cstl_unique_ptr_reset(live);
+        VRT_CHECK(vrt_lib_live() == 0, "guard.proper-use-wrong.unique.leak", "%zu library blocks live", vrt_lib_live());
+        vrt_free(live); vrt_free(d); vrt_free(d2);
+        break;
+    }
+    case KS: case KW: {
+        cstl_shared_ptr_t *live = vrt_alloc(sizeof(*live)), *d, *d2, *d3;
+        cstl_weak_ptr_t *w, *w2;
+        void *volatile got = NULL; void *m1; volatile int un = 0;
+        cstl_shared_ptr_init(live); cstl_shared_ptr_alloc(live, 24, clr_cb);
+        d = storage(sizeof(*d), pr, live); d2 = storage(sizeof(*d2), pr, live); d3 = storage(sizeof(*d3), pr, live);
+        w = storage(sizeof(*w), pr, live); w2 = storage(sizeof(*w2), pr, live);
+        MUST_NOT(cstl_shared_ptr_init(d), "shared.init"); MUST_NOT(cstl_shared_ptr_init(d2), "shared.init"); MUST_NOT(cstl_shared_ptr_init(d3), "shared.init");
+        MUST_NOT(cstl_weak_ptr_init(w), "weak.init"); MUST_NOT(cstl_weak_ptr_init(w2), "weak.init");
+        MUST_NOT(got = cstl_shared_ptr_get(d), "shared.get");
+        VRT_CHECK(got == NULL, "guard.proper-use-wrong.shared.init", "a freshly initialised shared pointer is not empty");
+        if (v != 1) MUST_NOT(cstl_shared_ptr_alloc(d, 32, clr_cb), "shared.alloc");
+        m1 = cstl_shared_ptr_get(d);
+        MUST_NOT(cstl_shared_ptr_share(d, d2), "shared.share");
+        MUST_NOT(cstl_shared_ptr_share(live, d3), "shared.share");
+        MUST_NOT(cstl_shared_ptr_swap(d2, d3), "shared.swap");           /* d3: m1, d2: live's */
+        MUST_NOT(un = cstl_shared_ptr_unique(d), "shared.unique");
+        VRT_CHECK(cstl_shared_ptr_get(d3) == m1 && cstl_shared_ptr_get(d2) == cstl_shared_ptr_get(live) && (m1 == NULL || !un),
+                  "guard.proper-use-wrong.shared.share-swap", "share/swap/unique results are wrong");
+        MUST_NOT(cstl_weak_ptr_from(w, d), "weak.from");
+        MUST_NOT(cstl_weak_ptr_from(w2, live), "weak.from");
+        MUST_NOT(cstl_weak_ptr_swap(w, w2), "weak.swap");                /* w: live's, w2: m1 */
+        MUST_NOT(cstl_weak_ptr_from(w, d), "weak.from-occupied");        /* w: m1 */
+        MUST_NOT(cstl_shared_ptr_reset(d2), "shared.reset");
+        MUST_NOT(cstl_weak_ptr_lock(w2, d2), "weak.lock");
+        VRT_CHECK(cstl_shared_ptr_get(d2) == m1, "guard.proper-use-wrong.weak.lock", "lock yields another allocation");
+        if (v == 2) {   /* weak-only, then expired lock */
+            MUST_NOT(cstl_shared_ptr_reset(d), "shared.reset"); MUST_NOT(cstl_shared_ptr_reset(d2), "shared.reset"); MUST_NOT(cstl_shared_ptr_reset(d3), "shared.reset");
+            MUST_NOT(cstl_weak_ptr_lock(w, d), "weak.lock-expired");
+            VRT_CHECK(cstl_shared_ptr_get(d) == NULL, "guard.proper-use-wrong.weak.lock-expired", "lock of an expired weak pointer yields memory");
+        }
+        MUST_NOT(cstl_weak_ptr_reset(w), "weak.reset"); MUST_NOT(cstl_weak_ptr_reset(w2), "weak.reset");
+        MUST_NOT(cstl_shared_ptr_reset(d), "shared.reset"); MUST_NOT(cstl_shared_ptr_reset(d2), "shared.reset"); MUST_NOT(cstl_shared_ptr_reset(d3), "shared.reset");
+        VRT_CHECK(cstl_shared_ptr_get(live) != NULL && cstl_shared_ptr_unique(live), "guard.proper-use-wrong.shared.originals", "the other object changed");
+        cstl_shared_ptr_reset(live);
+        VRT_CHECK(vrt_lib_live() == 0, "guard.proper-use-wrong.shared.leak", "%zu library blocks live", vrt_lib_live());
+        vrt_free(live); vrt_free(d); vrt_free(d2); vrt_free(d3); vrt_free(w); vrt_free(w2);
+        break;
+    }
+    default: {
+        cstl_array_t *live = vrt_alloc(sizeof(*live)), *d, *d2, *d3;
+        void *ext = vrt_alloc(5 * 8), *rel = NULL;
+        volatile size_t sz = 0; void *volatile got = NULL;
+        cstl_array_init(live); cstl_array_alloc(live, 3, 8);
+        d = storage(sizeof(*d), pr, live); d2 = storage(sizeof(*d2), pr, live); d3 = storage(sizeof(*d3), pr, live);
+        MUST_NOT(cstl_array_init(d), "array.init"); MUST_NOT(cstl_array_init(d2), "array.init"); MUST_NOT(cstl_array_init(d3), "array.init");
+        MUST_NOT(sz = cstl_array_size(d), "array.size");
+        VRT_CHECK(sz == 0, "guard.proper-use-wrong.array.init", "a freshly initialised array is not empty");
+        if (v == 1) MUST_NOT(cstl_array_set(d, ext, 5, 8), "array.set"); else MUST_NOT(cstl_array_alloc(d, 5, 8), "array.alloc");
+        MUST_NOT(cstl_array_slice(d, 1, 4, d2), "array.slice");
+        MUST_NOT(cstl_array_slice(d2, 1, 2, d2), "array.slice-in-place");
+        MUST_NOT(cstl_array_unslice(d2, d3), "array.unslice");
+        MUST_NOT(got = cstl_array_at(d2, 0), "array.at");
+        VRT_CHECK(got == (char *)cstl_array_data(d) + 2 * 8 && cstl_array_size(d3) == 5, "guard.proper-use-wrong.array.slice", "slice/unslice results are wrong");
+        MUST_NOT(cstl_array_slice(live, 0, 1, d3), "array.slice-to-occupied");
+        if (v == 2) { MUST_NOT(cstl_array_alloc(d2, 2, 8), "array.alloc-occupied"); }
+        MUST_NOT(cstl_array_reset(d2), "array.reset"); MUST_NOT(cstl_array_reset(d3), "array.reset");
+        if (v == 1) { MUST_NOT(cstl_array_release(d, &rel), "array.release"); VRT_CHECK(rel == ext, "guard.proper-use-wrong.array.release", "release did not hand the buffer back"); }
+        MUST_NOT(cstl_array_reset(d), "array.reset");
+        VRT_CHECK(cstl_array_size(live) == 3, "guard.proper-use-wrong.array.originals", "the other object changed");
+        cstl_array_reset(live);
+        VRT_CHECK(vrt_lib_live() == 0, "guard.proper-use-wrong.array.leak", "%zu library blocks live", vrt_lib_live());
+        vrt_free(ext); vrt_free(live); vrt_free(d); vrt_free(d2); vrt_free(d3);
+        break;
+    }
+    }
+    VRT_COUNT("proper-use.cells");
 }
 
 /* ---------------- guarded ---------------- */
@@ -333,14 +490,17 @@ static void run_case(uint64_t idx)
     case KU: st = ustate[c->state]; pr = uprobe[c->probe]; break;
     case KS: st = sstate[c->state]; pr = sprobe[c->probe]; break;
     case KW: st = wstate[c->state]; pr = wprobe[c->probe]; break;
+    case KC: st = prior[c->state]; pr = kname[c->probe]; break;
     default: st = astate[c->state]; pr = aprobe[c->probe]; break;
     }
-    vrt_case_note("cell: %s object, state %s, strayed by %s, probe %s", kname[c->kind], st, wname[c->way], pr);
+    if (c->kind == KC) vrt_case_note("converse cell: proper use of %s objects in storage that held %s, variant %d", pr, st, c->way);
+    else vrt_case_note("cell: %s object, state %s, strayed by %s, probe %s", kname[c->kind], st, wname[c->way], pr);
     switch (c->kind) {
     case KG: cell_guarded(c); break;
     case KU: cell_unique(c); break;
     case KS: cell_shared(c); break;
     case KW: cell_weak(c); break;
+    case KC: cell_converse(c); break;
     default: cell_array(c); break;
     }
     snprintf(nm, sizeof(nm), "cells.%s.%s", kname[c->kind], pr);
@@ -350,6 +510,6 @@ static void run_case(uint64_t idx)
 }
 static uint64_t ncases(void) { build_cells(); return ncell; }
 static void winit(void) { build_cells(); vrt_sig_name(0, "matrix-cells"); }
-static const char *const required[] = { "cells.aborted-as-required", "originals-exercised", NULL };
+static const char *const required[] = { "cells.aborted-as-required", "originals-exercised", "proper-use.cells", "proper-use.calls-returned-normally", NULL };
 static const struct vrt_harness H = { "guard", ncases, run_case, winit, NULL, required, 8 };
 int main(int argc, char **argv) { return vrt_main(argc, argv, &H); }
